@@ -74,7 +74,7 @@ def subdirs(t, prefix=()):
     return out
 
 
-RES = [("any", ".*"), (["sub", "log"], "log"), (["pre", "a"], "^a"), (["suf", ".log"], "\\.log$"), (["full", "c.txt"], "^c\\.txt$"),
+RES = [("any", ".*"), (["full", "sub"], "^sub$"), (["full", "r"], "^r$"), (["sub", "log"], "log"), (["pre", "a"], "^a"), (["suf", ".log"], "\\.log$"), (["full", "c.txt"], "^c\\.txt$"),
        (["sub", "."], "\\."), (["pre", "."], "^\\.")]
 
 
@@ -101,13 +101,16 @@ def gen_case(rng, with_ignore):
     p = dict(file_type=rng.choice(["any", "directory", "file", "file", "link"]), hidden=rng.random() < 0.4, recurse=rng.random() < 0.6,
              patterns=rng.sample(RES, rng.choice([0, 0, 1, 2])), excludes=rng.sample(RES[1:], rng.choice([0, 0, 1])),
              size=rng.choice([None, None, 100, 5, 0]))
+    p["root_suffix"] = [rng.choice(["", "", "", "/", "/.", "//"]) for _ in roots]
     return t, roots, p
 
 
 def params_yaml(roots, p, relative=False):
     L = ["paths:"]
-    for pre, t in roots:
-        L.append("  - " + json.dumps(("" if relative else "ROOT/") + "/".join(pre + (t[1],))))
+    for i, (pre, t) in enumerate(roots):
+        # the same directory can be written with a trailing `/` or `/.`: its base name is still the directory's name
+        sfx = p.get("root_suffix", [""] * len(roots))[i] if p.get("root_suffix") else ""
+        L.append("  - " + json.dumps(("" if relative else "ROOT/") + "/".join(pre + (t[1],)) + sfx))
     L.append("file_type: " + p["file_type"])
     L.append("hidden: " + ("true" if p["hidden"] else "false"))
     L.append("recurse: " + ("true" if p["recurse"] else "false"))
@@ -169,7 +172,10 @@ def c16(run, replay=None):
         if io.get("crash") or "ok" not in io["module"]:
             run.violation("find failed or panicked on a valid query: %r" % (io,), dict(desc, implementation=io))
             continue
-        got = io["module"]["ok"]
+        # a root written `dir/`, `dir//` or `dir/.` is the same directory: the returned paths are compared as paths
+        got = [os.path.normpath(x) for x in io["module"]["ok"]]
+        if io.get("lookup", {}).get("ok") is not None:
+            io["lookup"]["ok"] = [os.path.normpath(x) for x in io["lookup"]["ok"]]
         k = "empty" if not got else "nonempty"
         dist[k] = dist.get(k, 0) + 1
         if got:
